@@ -106,6 +106,10 @@ def gen_case(seed):
                 spec['writes'].append([ov, [r.rint(1, 99)]])
         procs.append(spec)
     steps = []
+    if r.chance(4):
+        # no processes at all: only steps (run_for must still terminate and land on its end)
+        procs = []
+        swarm['steps'] = True
     if swarm['steps']:
         for i in range(r.rint(1, 2)):
             steps.append({'name': 's%d' % i, 'vars': avars, 'path': ['s%d' % i],
